@@ -1,0 +1,207 @@
+//go:build verif
+
+/*
+ Licensed to the Apache Software Foundation (ASF) under one
+ or more contributor license agreements.  See the NOTICE file
+ distributed with this work for additional information
+ regarding copyright ownership.  The ASF licenses this file
+ to you under the Apache License, Version 2.0 (the
+ "License"); you may not use this file except in compliance
+ with the License.  You may obtain a copy of the License at
+
+     http://www.apache.org/licenses/LICENSE-2.0
+
+ Unless required by applicable law or agreed to in writing, software
+ distributed under the License is distributed on an "AS IS" BASIS,
+ WITHOUT WARRANTIES OR CONDITIONS OF ANY KIND, either express or implied.
+ See the License for the specific language governing permissions and
+ limitations under the License.
+*/
+
+package objects
+
+import (
+	"time"
+
+	"github.com/apache/yunikorn-core/pkg/common/resources"
+	"github.com/apache/yunikorn-core/pkg/scheduler/policies"
+)
+
+// Verification hooks: only compiled with the "verif" build tag. Purely additive accessors and
+// deterministic replacements for "the timer fires now"; no existing behaviour is changed.
+
+// VerifPlaceholderTimerArmed returns true if the placeholder timer is currently set.
+func (sa *Application) VerifPlaceholderTimerArmed() bool {
+	sa.RLock()
+	defer sa.RUnlock()
+	return sa.placeholderTimer != nil
+}
+
+// VerifFirePlaceholderTimer runs the placeholder timeout callback exactly as the timer would, but only if
+// the timer is armed. The real timer is stopped first: it fires once.
+func (sa *Application) VerifFirePlaceholderTimer() bool {
+	sa.Lock()
+	if sa.placeholderTimer == nil {
+		sa.Unlock()
+		return false
+	}
+	sa.placeholderTimer.Stop()
+	sa.Unlock()
+	sa.timeoutPlaceholderProcessing()
+	return true
+}
+
+// VerifStateTimerArmed returns true if the state timer is currently set.
+func (sa *Application) VerifStateTimerArmed() bool {
+	sa.RLock()
+	defer sa.RUnlock()
+	return sa.stateTimer != nil
+}
+
+// VerifFireStateTimer runs the state timeout callback exactly as the timer would, but only if the timer is
+// armed. The callback is re-created from the state the timer was armed in: the timer is cleared whenever
+// the state is left, so an armed timer always belongs to the current state.
+func (sa *Application) VerifFireStateTimer() bool {
+	sa.Lock()
+	if sa.stateTimer == nil {
+		sa.Unlock()
+		return false
+	}
+	sa.stateTimer.Stop()
+	state := sa.stateMachine.Current()
+	sa.Unlock()
+	event := ExpireApplication
+	if state == Completing.String() {
+		event = CompleteApplication
+	}
+	sa.timeoutStateTimer(state, event)()
+	return true
+}
+
+// VerifSortedRequestKeys returns the allocation keys of the pre-sorted request list, in order.
+func (sa *Application) VerifSortedRequestKeys() []string {
+	sa.RLock()
+	defer sa.RUnlock()
+	keys := make([]string, 0, len(sa.sortedRequests))
+	for _, r := range sa.sortedRequests {
+		keys = append(keys, r.GetAllocationKey())
+	}
+	return keys
+}
+
+// VerifRequestCount returns the number of tracked requests (pending or allocated).
+func (sa *Application) VerifRequestCount() int {
+	sa.RLock()
+	defer sa.RUnlock()
+	return len(sa.requests)
+}
+
+// VerifReservations returns a map of allocation key -> node ID for the reservations of the application.
+func (sa *Application) VerifReservations() map[string]string {
+	sa.RLock()
+	defer sa.RUnlock()
+	out := make(map[string]string, len(sa.reservations))
+	for k, r := range sa.reservations {
+		out[k] = r.nodeID
+	}
+	return out
+}
+
+// VerifTimings are the package level timing settings.
+type VerifTimings struct {
+	ReservationDelay        time.Duration
+	ReservationWaitTimeout  time.Duration
+	CompletingTimeout       time.Duration
+	TerminatedTimeout       time.Duration
+	PreemptAttemptFrequency time.Duration
+}
+
+// VerifGetTimings returns the current package level timing settings.
+func VerifGetTimings() VerifTimings {
+	return VerifTimings{
+		ReservationDelay:        reservationDelay,
+		ReservationWaitTimeout:  reservationWaitTimeout,
+		CompletingTimeout:       completingTimeout,
+		TerminatedTimeout:       terminatedTimeout,
+		PreemptAttemptFrequency: preemptAttemptFrequency,
+	}
+}
+
+// VerifSetTimings sets the package level timing settings.
+func VerifSetTimings(t VerifTimings) {
+	reservationDelay = t.ReservationDelay
+	reservationWaitTimeout = t.ReservationWaitTimeout
+	completingTimeout = t.CompletingTimeout
+	terminatedTimeout = t.TerminatedTimeout
+	preemptAttemptFrequency = t.PreemptAttemptFrequency
+}
+
+// VerifSortQueues returns the sorted children with pending resources as used by the scheduling cycle.
+func (sq *Queue) VerifSortQueues() []*Queue {
+	return sq.sortQueues()
+}
+
+// VerifSortApplications returns the sorted applications as used by the scheduling cycle.
+func (sq *Queue) VerifSortApplications(withPlaceholdersOnly bool) []*Application {
+	return sq.sortApplications(withPlaceholdersOnly)
+}
+
+// VerifSortQueueSlice calls the raw queue sorter on a caller provided order.
+func VerifSortQueueSlice(queues []*Queue, fairMax []*resources.Resource, sortType policies.SortPolicy, considerPriority bool) {
+	sortQueue(queues, fairMax, sortType, considerPriority)
+}
+
+// VerifSortApplicationMap calls the raw application sorter.
+func VerifSortApplicationMap(apps map[string]*Application, sortType policies.SortPolicy, considerPriority bool, global *resources.Resource) []*Application {
+	return sortApplications(apps, sortType, considerPriority, global)
+}
+
+// VerifQuotaPreemptionRunning returns true while a quota preemption run is active for the queue.
+func (sq *Queue) VerifQuotaPreemptionRunning() bool {
+	return sq.getQuotaPreemptionRunning()
+}
+
+// VerifQuotaPreemptionStartTime returns the time quota preemption is due (zero when not scheduled).
+func (sq *Queue) VerifQuotaPreemptionStartTime() time.Time {
+	sq.RLock()
+	defer sq.RUnlock()
+	return sq.quotaPreemptionStartTime
+}
+
+// VerifSortType returns the sort policy of the queue.
+func (sq *Queue) VerifSortType() policies.SortPolicy {
+	return sq.getSortType()
+}
+
+// VerifHeadRoom returns the head room used by the scheduling cycle.
+func (sq *Queue) VerifHeadRoom() *resources.Resource {
+	return sq.getHeadRoom()
+}
+
+// VerifMaxResource returns the queue's own configured maximum (nil when not set).
+func (sq *Queue) VerifMaxResource() *resources.Resource {
+	return sq.cloneMaxResource()
+}
+
+// VerifParent returns the parent queue.
+func (sq *Queue) VerifParent() *Queue {
+	return sq.parent
+}
+
+// VerifReservationInfo is a flattened reservation.
+type VerifReservationInfo struct {
+	AppID    string
+	AllocKey string
+	NodeID   string
+}
+
+// VerifReservations returns the reservations on the node.
+func (sn *Node) VerifReservations() []VerifReservationInfo {
+	sn.RLock()
+	defer sn.RUnlock()
+	out := make([]VerifReservationInfo, 0, len(sn.reservations))
+	for k, r := range sn.reservations {
+		out = append(out, VerifReservationInfo{AppID: r.appID, AllocKey: k, NodeID: sn.NodeID})
+	}
+	return out
+}
